@@ -248,7 +248,7 @@ def run_sharded(cmd, lines, shards=None, env=None, timeout=3000):
     A shard that dies yields 'CRASH' for the cases it did not answer."""
     if not lines:
         return []
-    shards = max(1, min(shards or NCPU, (len(lines) + 49) // 50))
+    shards = max(1, min(shards or NCPU, len(lines))) if shards else max(1, min(NCPU, (len(lines) + 49) // 50))
     chunks = [lines[i::shards] for i in range(shards)]
 
     def work(chunk):
